@@ -137,6 +137,26 @@ def main():
             r = {"err": type(e).__name__ + ": " + str(e)[:200]}
         out.append(r)
     res["real"] = out
+    # the pure integer functions of the hafnian reduction
+    if req.get("mo") or req.get("kept"):
+        from piquasso._math.hafnian.utils import get_kept_edges, match_occupation_numbers
+        out = []
+        for occ in req.get("mo", []):
+            try:
+                er, ei = match_occupation_numbers(np.array(occ, dtype=np.int64))
+                out.append({"reps": [int(x) for x in er], "idx": [int(x) for x in ei]})
+            except BaseException as e:  # noqa
+                out.append({"err": type(e).__name__ + ": " + str(e)[:200]})
+        res["mo"] = out
+        out = []
+        for reps in req.get("kept", []):
+            try:
+                arr = np.array(reps, dtype=np.int64)
+                size = int(np.prod(arr + 1)) if len(reps) else 1
+                out.append([[int(x) for x in get_kept_edges(arr, k)] for k in range(size)])
+            except BaseException as e:  # noqa
+                out.append({"err": type(e).__name__ + ": " + str(e)[:200]})
+        res["kept"] = out
     print(json.dumps(res))
 
 
